@@ -151,6 +151,7 @@ SetKey(c, k, x) ==
       [] k = "events.topic" -> [c EXCEPT !.events["topic"] = x]
       [] k = "events.msg" -> [c EXCEPT !.events["msg"] = x]
       [] k = "events.tpi" -> [c EXCEPT !.events["tpi"] = x]
+      [] k = "events.custom" -> [c EXCEPT !.events["custom"] = x]
       [] k = "notif.room" -> [c EXCEPT !.notif["room"] = x]
       [] k = "notif.here" -> [c EXCEPT !.notif["here"] = x]
       [] k = "users.alice" -> [c EXCEPT !.users["alice"] = x]
@@ -200,6 +201,29 @@ InitPL3 ==
        /\ LET ctx == SetKey(SetKey(BasePL(s), "events_default", ed), "state_default", sd) IN
           /\ st = WithPL(WithMem(BaseSt, "alice", "join"), SetKey(ctx, k, o))
           /\ ev = PLEv(SetKey(ctx, k, n))
+
+\* names: the `events` (and `notifications`) maps are keyed by arbitrary strings, so an entry may carry the NAME of one
+\* of the thresholds ("ban", "users_default", ...) or of a notification key.  Such an entry is the level of an
+\* ordinary event type of that name and has nothing to do with the threshold: a threshold change is judged exactly as
+\* it is without the entry.  The harness realises the abstract type "custom" by the name of the threshold that
+\* changes in the record (and the notification key "here" likewise), so the two meet in whatever table the code keeps.
+InitPLNames ==
+    \/ \E s \in {2, 3}, k \in ScalarKeys, o \in PLValsSmall, n \in PLValsSmall, c1 \in {Absent, 1, 2, 3}, c2 \in {Absent, 1, 2, 3} :
+          /\ o # n
+          /\ (c1 # Absent \/ c2 # Absent)
+          /\ st = WithPL(WithMem(BaseSt, "alice", "join"), SetKey(SetKey(BasePL(s), k, o), "events.custom", c1))
+          /\ ev = PLEv(SetKey(SetKey(BasePL(s), k, n), "events.custom", c2))
+    \/ \E s \in {2, 3}, k \in ScalarKeys, o \in PLValsSmall, n \in PLValsSmall, c1 \in {Absent, 1, 2, 3}, c2 \in {Absent, 1, 2, 3} :
+          /\ o # n
+          /\ (c1 # Absent \/ c2 # Absent)
+          /\ st = WithPL(WithMem(BaseSt, "alice", "join"), SetKey(SetKey(BasePL(s), k, o), "notif.here", c1))
+          /\ ev = PLEv(SetKey(SetKey(BasePL(s), k, n), "notif.here", c2))
+    \* an events entry and a notifications entry of one name
+    \/ \E s \in {2, 3}, o \in PLValsSmall, n \in PLValsSmall, c1 \in {Absent, 1, 2, 3}, c2 \in {Absent, 1, 2, 3} :
+          /\ o # n
+          /\ (c1 # Absent \/ c2 # Absent)
+          /\ st = WithPL(WithMem(BaseSt, "alice", "join"), SetKey(SetKey(BasePL(s), "notif.here", o), "events.custom", c1))
+          /\ ev = PLEv(SetKey(SetKey(BasePL(s), "notif.here", n), "events.custom", c2))
 
 \* first power-levels event of a room (no current one), bad user key, creators in v12, sender not joined
 InitPL0 ==
@@ -262,6 +286,7 @@ Init ==
          [] Family = "pl1" -> InitPL1
          [] Family = "pl2" -> InitPL2
          [] Family = "pl3" -> InitPL3
+         [] Family = "plnames" -> InitPLNames
 
 \* one action: the check itself (Allowed is a pure function of the scenario)
 Check ==
